@@ -36,7 +36,7 @@ func shapeFn(name string, k int) string {
 }
 
 func suiteRepeat(c *Ctx) error {
-	c.Res.Rule = "generated trees (3 packages x 3 files x 6..10 functions incl. identical shapes and identical short names across packages), a signature database indexed from the tree itself (so many alerts tie on function name + signature name), and old/new file pairs with 3..5 same-shape renames; `sfw check`, `sfw scan` (full and --exact) and `sfw diff` are each run R times at GOMAXPROCS 1, 2 and 16; every stdout must be byte-identical to the first; non-trivial = the input contains at least one tie (same-shape or same-name functions); distinct by (command, input)"
+	c.Res.Rule = "generated trees (3 packages x 3 files x 6..10 functions incl. identical shapes and identical short names across packages), a signature database indexed from the tree itself (so many alerts tie on function name + signature name), and old/new file pairs with 3..5 (first pair: 24) same-shape renames; `sfw check`, `sfw scan` (full and --exact) and `sfw diff` are each run R times at GOMAXPROCS 1, 2 and 16; every stdout must be byte-identical to the first; non-trivial = the input contains at least one tie (same-shape or same-name functions); distinct by (command, input)"
 	sfw := os.Getenv("VERIF_SFW")
 	if sfw == "" {
 		return fmt.Errorf("VERIF_SFW not set (the check driver builds cmd/sfw)")
@@ -140,9 +140,12 @@ func suiteRepeat(c *Ctx) error {
 		common := base.Render(nil, nil, 0)
 		oldSrc, newSrc := common, common
 		nRen := 3 + r.Intn(3)
+		if ti == 0 {
+			nRen = 24 // enough unmatched functions for any "only parallel above a size" path, all tied
+		}
 		for k := 0; k < nRen; k++ {
-			oldSrc += shapeFn(fmt.Sprintf("Old%c", 'A'+k), k)
-			newSrc += shapeFn(fmt.Sprintf("New%c", 'P'+k), k)
+			oldSrc += shapeFn(fmt.Sprintf("Old%02d", k), k)
+			newSrc += shapeFn(fmt.Sprintf("New%02d", (k*7+3)%nRen), k)
 		}
 		oldSrc += "func OnlyOld(x int) int { return x * 7 }\n"
 		newSrc += "func OnlyNew(x int) int { return x * 9 }\n"
